@@ -87,6 +87,13 @@ def run(ctx):
         nw = copy.deepcopy(c)
         nw["network"] = True
         nw.pop("probe", None)
+        if i % 2:
+            # ... sharing its two nodes with a second, hotter tube of another material (parallel edges)
+            pb = copy.deepcopy(c)
+            pb.pop("probe", None)
+            pb["temps"] = [[t + 40.0 * k for t in row] for k, row in enumerate(pb["temps"])]
+            pb["material"] = gen_material(rng, alpha="const")
+            nw["parallel"] = pb
         jobs.append(("network", b, add(nw, "network")))
         if c["material"]["alpha_kind"] != "kink":
             jobs.append(("refined", b, add(refine(c, rng.choice([2, 3])), "refined")))
